@@ -5,6 +5,9 @@ Three parts:
      (+ roast's line table, + getRangeForViolation through an overlay test) against Model/Location.v;
   2. the property predicate on the implementation itself, end to end: lint the corpora with all rules
      enabled, check every reported location against the file, and the k-shift relation, k in {1,3,10,100};
+     the same relation for the diagnostics of the language server: generated multi-file workspaces (aggregate and
+     single-file violations, inline ignore directives) are loaded, then one file after the other is replaced by its
+     k-shifted text through the functions the server runs per edit, and the cached diagnostics are compared;
   3. proof gate for the theorems of Props/C07.v.
 """
 import json, os, re
@@ -146,7 +149,7 @@ def case_to_coq(c):
 
 
 def lsp_cases(ctx):
-    """getRangeForViolation through the overlay test"""
+    """inputs for getRangeForViolation (run through the overlay test)"""
     rng = vlib.SplitMix(ctx.seed ^ 0xC07)
     cases = []
     n = 300 if ctx.quick() else 3000
@@ -163,24 +166,175 @@ def lsp_cases(ctx):
         ec = rng.below(130) - 3 if er != row or rng.below(4) == 0 else col + rng.below(40)
         cases.append({'row': row, 'col': col, 'has_end': he, 'end_row': er, 'end_col': ec,
                       'text': rng.choice(texts), 'file': rng.choice(['a.rego', '', 'file:///ws/b.rego'])})
-    inp, outp = os.path.join(ctx.tmp, 'lsp_in.json'), os.path.join(ctx.tmp, 'lsp_out.json')
-    json.dump(cases, open(inp, 'w'))
-    rc, log = vlib.go_test_overlay(ctx, './internal/lsp', {'internal/lsp/zz_verif_c07_test.go': os.path.join(vlib.HARNESS, 'overlay', 'c07_test.go')},
-                                   'TestVerifC07', env_extra={'VERIF_C07_IN': inp, 'VERIF_C07_OUT': outp}, timeout=900)
-    if rc != 0 or not os.path.exists(outp):
+    return cases
+
+
+def run_lsp(ctx, workspaces):
+    """-> (range conversion cases with results | None, log, shift results | None)"""
+    rc, log, res, shift = lsp_overlay(ctx, lsp_cases(ctx), workspaces)
+    if rc != 0 or res is None or (workspaces is not None and shift is None):
         if 'does not use getRangeForViolation' in log:
-            return None, log
+            return None, log, shift
+        if 'panic:' in log or 'fatal error:' in log:
+            return res, log, None
         raise vlib.HarnessBuildError('C07 overlay test failed:\n' + log[-3000:])
-    res = json.load(open(outp))
     for c in res:
         c['helper'] = 'lsp'
-    return res, log
+    return res, log, shift
+
+
+# ---------------------------------------------------------------------------------------------------------
+# End-to-end k-shift of the language server's diagnostics (harness/overlay/c07_test.go: TestVerifC07Shift)
+
+LSP_KS = [1, 3, 10, 100]
+CONFIG_ALL = 'rules:\n  default:\n    level: error\n'
+
+
+def _directive(rng, rule):
+    """how an inline ignore directive is attached to a line: (line above or None, trailing text)"""
+    k = rng.below(8)
+    if k < 3:
+        return None, ''                                            # not ignored: reported
+    if k < 5:
+        return None, ' # regal ignore:%s' % rule                   # trailing, same line
+    if k == 5:
+        return '# regal ignore:%s' % rule, ''                      # on the line above
+    if k == 6:
+        return None, ' # regal ignore:%s,line-length' % rule       # list of rules
+    return None, ' # regal ignore:some-other-rule'                # names another rule: still reported
+
+
+def gen_workspace(rng, idx, config):
+    """a small workspace: 2-4 packages importing each other, with violations of aggregate rules (unresolved-import,
+    prefer-package-imports, circular-import, impossible-not; missing-metadata / no-defined-entrypoint by themselves)
+    and of single-file rules, each reported or suppressed by an inline ignore directive; a random number of
+    comment lines in front so that rows cross digit boundaries for different k"""
+    n = 2 + rng.below(3)
+    pkgs = ['p%d' % i for i in range(n)]
+    files = {}
+    for i, pkg in enumerate(pkgs):
+        head, imports, rules = [], [], []
+
+        def put(dst, line, rule):
+            above, trail = _directive(rng, rule)
+            if above is not None:
+                dst.append(line[:len(line) - len(line.lstrip())] + above)
+            dst.append(line + trail)
+
+        for j in range(rng.below(9)):
+            head.append('# note %d about %s' % (j, pkg))
+        if rng.below(4) == 0:
+            head += ['# METADATA', '# title: %s' % pkg, '# description: package %s' % pkg]
+        others = [p for p in pkgs if p != pkg]
+        # --- aggregate rules
+        for m in range(rng.below(3)):
+            put(imports, 'import data.missing%d.thing%d%d' % (m, i, m), 'unresolved-import')
+            rules += ['', 'uses_missing%d if thing%d%d.x == input.x' % (m, i, m)]
+        if rng.below(3) != 0:
+            o = rng.choice(others)
+            put(imports, 'import data.%s.helper' % o, 'prefer-package-imports')
+            rules += ['', 'uses_helper if helper(input.y) == 1']
+        for o in others:
+            if rng.below(2) == 0:
+                put(imports, 'import data.%s' % o, 'circular-import')
+                rules += ['', 'uses_%s if %s.flag' % (o, o)]
+                if rng.below(2) == 0:
+                    rules += ['', 'never_%s if {' % o]
+                    put(rules, '\tnot %s.members' % o, 'impossible-not')
+                    rules += ['}']
+        # --- single-file rules
+        for kind in rng.shuffle(range(7))[:1 + rng.below(4)]:
+            rules.append('')
+            if kind == 0:
+                rules.append('debug%d if {' % i)
+                put(rules, '\tprint("x", input.x)', 'print-or-trace-call')
+                rules.append('}')
+            elif kind == 1:
+                put(rules, '# TODO: tidy %s' % pkg, 'todo-comment')
+                rules.append('tidy%d := 1' % i)
+            elif kind == 2:
+                put(rules, 'camelCase%d := 2' % i, 'prefer-snake-case')
+            elif kind == 3:
+                put(rules, 'assigned%d = 3' % i, 'use-assignment-operator')
+            elif kind == 4:
+                put(rules, 'long%d := "%s"' % (i, 'x' * 125), 'line-length')
+            elif kind == 5:
+                rules.append('constant%d if {' % i)
+                put(rules, '\t1 == 1', 'constant-condition')
+                rules.append('}')
+            else:
+                put(rules, 'dup%d := 4' % i, 'duplicate-rule')
+                rules += ['', 'dup%d := 4' % i]
+        body = ['', 'helper(x) := x', '', 'members contains m if some m in input.ms', '', 'flag if input.flag']
+        text = '\n'.join(head + ['package %s' % pkg, ''] + imports + rules + body) + '\n'
+        files['%s/%s.rego' % (pkg, pkg)] = text
+    return {'name': 'ws%d' % idx, 'files': files, 'config': config, 'ks': LSP_KS}
+
+
+def lsp_shift_workspaces(ctx):
+    rng = vlib.SplitMix(ctx.seed ^ 0xC07A)
+    n = 3 if ctx.quick() else 24
+    wss = [gen_workspace(rng, i, CONFIG_ALL if i % 3 == 2 else '') for i in range(n)]
+    # a fixed one: the smallest shape of each aggregate rule next to its ignored twin
+    wss.append({'name': 'fixed', 'config': '', 'ks': LSP_KS, 'files': {
+        'a/a.rego': 'package a\n\nimport data.b\nimport data.nowhere.x\nimport data.nowhere.y # regal ignore:unresolved-import\n'
+                    'import data.b.helper # regal ignore:prefer-package-imports\n\nr if x.q == y.q\n\ns if helper(b.flag)\n\n'
+                    't if {\n\t# regal ignore:impossible-not\n\tnot b.members\n}\n\nu if {\n\tnot b.members\n}\n\nflag if input.a\n',
+        'b/b.rego': '# about b\npackage b\n\nimport data.a # regal ignore:circular-import\n\nhelper(x) := x\n\nmembers contains m if some m in input.ms\n\n'
+                    'flag if a.flag\n\nprint_it if {\n\tprint(2)\n\tprint(1) # regal ignore:print-or-trace-call\n}\n',
+    }})
+    return wss
+
+
+def lsp_overlay(ctx, cases, workspaces):
+    """one `go test` run for both overlay tests (range conversion cases, k-shift workspaces)"""
+    inp, outp = os.path.join(ctx.tmp, 'lsp_in.json'), os.path.join(ctx.tmp, 'lsp_out.json')
+    sin, sout = os.path.join(ctx.tmp, 'lsp_shift_in.json'), os.path.join(ctx.tmp, 'lsp_shift_out.json')
+    env = {}
+    if cases is not None:
+        json.dump(cases, open(inp, 'w'))
+        env.update({'VERIF_C07_IN': inp, 'VERIF_C07_OUT': outp})
+    if workspaces is not None:
+        json.dump(workspaces, open(sin, 'w'))
+        env.update({'VERIF_C07_SHIFT_IN': sin, 'VERIF_C07_SHIFT_OUT': sout})
+    rc, log = vlib.go_test_overlay(ctx, './internal/lsp', {'internal/lsp/zz_verif_c07_test.go': os.path.join(vlib.HARNESS, 'overlay', 'c07_test.go')},
+                                   'TestVerifC07', env_extra=env, timeout=1500)
+    res = json.load(open(outp)) if cases is not None and os.path.exists(outp) else None
+    shift = json.load(open(sout)) if workspaces is not None and os.path.exists(sout) else None
+    return rc, log, res, shift
+
+
+def report_lsp_shift(ctx, shift):
+    """verdicts of the end-to-end LSP k-shift scenarios: one violation per (kind, rule)"""
+    seen = set()
+    for ws in shift:
+        for it in ws.get('issues') or []:
+            d = it.get('diag') or {}
+            sig = {'kind': 'lsp-shift-' + it['kind'], 'key': d.get('code') or it.get('err', '')[:80]}
+            if json.dumps(sig) in seen:
+                continue
+            seen.add(json.dumps(sig))
+            what = {
+                'missing-after-edit': 'a diagnostic of %s disappears' % d.get('code'),
+                'extra-after-edit': 'a diagnostic of %s appears (or does not move by k lines)' % d.get('code'),
+                'other-file-changed': 'the diagnostics of ANOTHER file (%s) change' % (it.get('other') or 'workspace root'),
+                'outside-file': 'a diagnostic of %s lies outside the file or ends before it starts' % d.get('code'),
+                'error': 'the per-edit lint fails: %s' % it.get('err', '')[:200],
+            }[it['kind']]
+            vlib.violation(ctx, {'kind': 'lsp-shift', 'lsp_workspace': {'name': ws['name'] + '-replay', 'files': it['files'], 'config': it.get('config', ''),
+                                                                         'ks': [it['k']], 'edit': [it['file']]},
+                                 'issue': it['kind'], 'file': it['file'], 'k': it['k'], 'diagnostic': d, 'minimised': it.get('minimised', False),
+                                 'before_edit': it.get('before'), 'after_edit': it.get('after'),
+                                 'what': 'language server: after replacing %s by the same text with %d blank lines on top (updateParse, updateFileDiagnostics, '
+                                         'aggregate-report-only updateAllDiagnostics) %s' % (it['file'], it['k'], what)},
+                           signature=sig)
 
 
 def run(ctx):
     h = vlib.build_harness(ctx, 'c07')
     env = dict(os.environ, VERIF_SEED=str(ctx.seed))
     replay_modules = None
+    rp = {}
     if ctx.replay:
         rp = json.load(open(ctx.replay))
         if rp.get('modules'):
@@ -197,10 +351,23 @@ def run(ctx):
         else:
             raise RuntimeError('c07 helper evaluation failed: ' + log[-2000:])
     cases = [json.loads(l) for l in open(hout)] if os.path.exists(hout) else []
-    lsp, lsp_log = lsp_cases(ctx)
+    # the language server: range conversion (correspondence) and the end-to-end k-shift of its diagnostics (predicate)
+    workspaces = lsp_shift_workspaces(ctx)
+    if ctx.replay and rp.get('lsp_workspace'):
+        workspaces = [rp['lsp_workspace']]
+    elif ctx.replay and replay_modules is not None:
+        workspaces = None
+    lsp, lsp_log, lsp_shift = run_lsp(ctx, workspaces)
     if lsp is None:
         vlib.violation(ctx, {'kind': 'correspondence', 'relation': 'convertReportToDiagnostics uses getRangeForViolation', 'log': lsp_log[-1500:]}, no_input=True)
         lsp = []
+    if workspaces is not None and lsp_shift is None:
+        m = re.search(r'(panic: [^\n]*|fatal error: [^\n]*)', lsp_log)
+        vlib.violation(ctx, {'kind': 'panic', 'what': 'the per-edit lint functions of the language server crash on the k-shift workspaces: ' + (m.group(1) if m else ''),
+                             'lsp_workspaces': workspaces, 'log': lsp_log[:3000]}, signature={'kind': 'panic', 'key': (m.group(1) if m else 'panic')[:120]})
+        lsp_shift = []
+    lsp_shift = lsp_shift or []
+    report_lsp_shift(ctx, lsp_shift)
     cases += lsp
     coq, keep, unrep = [], [], []
     for c in cases:
@@ -223,7 +390,10 @@ def run(ctx):
         r1, r2 = [], []   # the model itself does not compile: the proof gate reports it
 
     # ---------------- 2. end to end over the corpora ------------------------------------------------
-    summ = shared.run_corpus(ctx, h, 'C07', replay_modules)
+    if ctx.replay and replay_modules is None and rp.get('lsp_workspace'):
+        summ = {'results': [], 'counts': {'replay_lsp_workspace': 1}}   # replay of an LSP scenario: no corpus run
+    else:
+        summ = shared.run_corpus(ctx, h, 'C07', replay_modules)
     # a lint error on a parseable module is C03's subject (tools/check C03 reports it); here the module is
     # only counted as not checked (evidence: corpus.lint_failures_by_signature)
     loc_issues, shift_issues = shared.collect_location_issues(summ)
@@ -280,10 +450,25 @@ def run(ctx):
         'distinct_nontrivial': distinct + st['modules_linted'],
         'rule': 'helper cases: distinct (helper, line table, arguments) tuples evaluated by OPA and by the model (incl. exhaustive 6x6x5x5 '
                 'quads over a 3-line table, malformed strings, object pass-through, non-ASCII lines, empty tables); corpus: distinct modules '
-                'linted with all rules enabled, each violation checked for bounds/text and for the shift relation with k in {1,3,10,100}',
+                'linted with all rules enabled (incl. samples of the systematic families: parseable-but-not-compilable modules, comments at '
+                'every token boundary of multi-line terms), each violation checked for bounds/text and for the shift relation with k in '
+                '{1,3,10,100}; lsp_shift: generated workspaces, every file edited to its k-shifted text through the server\'s per-edit '
+                'functions, cached diagnostics compared with the ones before the edit moved by k',
         'helper_cases': len(keep), 'helper_cases_by_helper': hist, 'helper_cases_in_theorem_domain': in_dom,
         'mismatch_model': len(r1), 'mismatch_spec': len(r2), 'unrepresentable': len(unrep),
         'corpus': st,
+        'lsp_shift': {
+            'workspaces': len(lsp_shift), 'edits': sum(w.get('edits', 0) for w in lsp_shift),
+            'diagnostic_edit_pairs': sum(w.get('compared', 0) for w in lsp_shift),
+            'baseline_diagnostics_by_rule': {k: sum((w.get('by_code') or {}).get(k, 0) for w in lsp_shift)
+                                             for k in sorted({k for w in lsp_shift for k in (w.get('by_code') or {})})},
+            'aggregate_rules': sorted({r for w in lsp_shift for r in (w.get('aggregate_rules') or [])}),
+            'issues': sum(len(w.get('issues') or []) for w in lsp_shift), 'skipped': [w['name'] for w in lsp_shift if w.get('skipped')],
+            'ks': LSP_KS,
+            'inline_ignore_directives_naming_an_aggregate_rule': sum(
+                len(re.findall(r'regal ignore:[^\n]*(?:unresolved-import|prefer-package-imports|circular-import|impossible-not|missing-metadata)', t))
+                for w in (workspaces or []) for t in w['files'].values()),
+        },
         'shift_exempt_rules': {'file-length': 'counts the lines of the file', 'opa-fmt': 'verdict is about formatting; leading blank lines are not opa-fmt output'},
         'samples': [keep[len(keep) // 3], keep[len(keep) // 2]] if keep else [],
         'exhaustive': False,
